@@ -117,11 +117,66 @@ func (c *slowCloseConn) Close() error {
 
 var linkCloseDelayA time.Duration // when > 0: A's end of the next linked pair closes slowly
 
+// lateFrameConn delivers the n-th length-prefixed chunk that arrives on it only when the
+// connection has been closed locally, or after `patience`: the last message of a slow handshake
+// that arrives at the very moment something gives up on the connection.
+type lateFrameConn struct {
+	net.Conn
+	n        int
+	patience time.Duration
+	mu       sync.Mutex
+	buf      []byte
+	seen     int
+	closed   chan struct{}
+	once     sync.Once
+}
+
+func (c *lateFrameConn) Close() error {
+	c.once.Do(func() { close(c.closed) })
+	return c.Conn.Close()
+}
+
+func (c *lateFrameConn) Read(p []byte) (int, error) {
+	c.mu.Lock()
+	defer c.mu.Unlock()
+	if len(c.buf) == 0 {
+		var l [2]byte
+		if _, err := io.ReadFull(c.Conn, l[:]); err != nil {
+			return 0, err
+		}
+		n := int(binary.BigEndian.Uint16(l[:]))
+		if n < 2 {
+			n = 2
+		}
+		chunk := make([]byte, n)
+		copy(chunk, l[:])
+		if _, err := io.ReadFull(c.Conn, chunk[2:]); err != nil {
+			return 0, err
+		}
+		c.seen++
+		if c.seen == c.n {
+			select {
+			case <-c.closed:
+			case <-time.After(c.patience):
+			}
+		}
+		c.buf = chunk
+	}
+	k := copy(p, c.buf)
+	c.buf = c.buf[k:]
+	return k, nil
+}
+
+var linkLateFrameA int // when > 0: A's end of the next linked pair gets its n-th incoming chunk late
+
 func linkNodes(w *rworld, A, B *rnode, abGate, baGate func(int, []byte)) (*linkedPair, error) {
 	a1raw, a2 := net.Pipe()
 	var a1 net.Conn = a1raw
 	if linkCloseDelayA > 0 {
 		a1 = &slowCloseConn{Conn: a1raw, delay: linkCloseDelayA}
+	}
+	if linkLateFrameA > 0 {
+		a1 = &lateFrameConn{Conn: a1raw, n: linkLateFrameA, patience: 7 * time.Second, closed: make(chan struct{})}
 	}
 	b1, b2 := net.Pipe()
 	p := &linkedPair{w: w, A: A, B: B, connA: a1, connB: b2,
